@@ -117,8 +117,15 @@ def explore(label: str, cfg: Dict[str, Any], budget: int, rng: random.Random, ch
             cur = post
             done += 1
             if done % 25 == 0:
-                game.pre_timestep()
-                game.advance_timestep()
+                try:
+                    game.pre_timestep()
+                    game.advance_timestep()
+                except Exception as e:  # noqa - a tick that raises after these requests (e.g. an application that was
+                    # installed on a switch and now runs): reported with the exception as signature, this history ends
+                    chk.violation({"module": "Requests", "event": "Tick", "exc": repr(e)[:200]},
+                                  {"scenario": label, "requests_before": meta[-25:], "exception": repr(e)})
+                    done = budget
+                    break
                 cur = numbering.num(rq.state_digest(sim))
                 events.append(rq.tick_event(cur))
                 meta.append({"request": "tick"})
